@@ -23,8 +23,15 @@ from harness.lib.model import is_err
 
 RULE = ('histories of attach/detach/receive/settle/reply/disconnect events over a name pool (components a, b, ab, c, '
         'keyword-typed a, binary, typed number, 300-byte component; depth 0..5 incl. the root prefix), each attach '
-        'through a random representation (URI string, str/bytes/bytearray/memoryview component list, encoded name as '
-        'bytes/bytearray/memoryview), Interests as wire packets (bytes and bytearray buffers, with/without lifetime, '
+        'through a random representation (13 kinds: URI string, str/bytes/bytearray/memoryview component list, encoded '
+        'name as bytes/bytearray/read-only or writable memoryview, writable view of a region of a larger scratch '
+        'buffer, writable component views into one shared buffer); `scrib` events: the caller overwrites every '
+        'writable buffer it handed to attach/detach so far (zeros, 0xFF, the same layout respelling every / only the '
+        'last component into another pool name) and the specification machine is run on the history without them '
+        '(attachments are values); buffer-reuse block: 7 writable representations x 4 overwrite contents x same turn / '
+        'after a loop turn on the full 9-node tree (+ random subsets), all probe names, duplicate attaches, '
+        'detaches of free and occupied prefixes, re-attach and second reuse, on all three front-ends; an exception '
+        'out of the real receive path is an observation (class delivery). Interests as wire packets (bytes and bytearray buffers, with/without lifetime, '
         'with/without PIT token); exhaustive block: subsets of a 9-node name tree x all 781 Interest names of depth '
         '<= 4 over 5 components (thorough: all 512 subsets, quick: 40), on all three front-ends; reply grid: lifetimes '
         '{absent,0,1,100,4000,2^32} x reply time deadline-1/0/+1 ms x token {none, empty, 2 bytes}; a separate '
@@ -111,6 +118,7 @@ class Impl:
         self.handlers = {}
         self.validators = {}
         self.tokens = []
+        self.bufs = []         # caller-owned writable buffers handed to attach/detach: (buffer, image per mode)
         if fe == FE_V2:
             from ndn.appv2 import NDNApp
             self.reg = Reg()
@@ -196,7 +204,10 @@ class Impl:
             wire = pkt.encode()
             wire = bytes(wire) if buf_kind == 0 else bytearray(wire)
         typ, _ = parse_tl_num(wire)
-        await self.app._receive(typ, wire)
+        try:
+            await self.app._receive(typ, wire)
+        except Exception as e:   # noqa  (the table lookup is real code: a raising lookup is an observation)
+            return [0, err_code(e)]
         return [2]
 
     def take(self):
@@ -248,7 +259,7 @@ class Impl:
             return True
         except KeyError:
             return False
-        except AttributeError:
+        except Exception:   # noqa  (no such accessor / a key that cannot be compared: not observable here)
             return None
 
 
@@ -258,10 +269,52 @@ def comp(uri):
     return bytes(Component.from_str(uri))
 
 
-def represent(rng, name, kind=None):
-    """One of the accepted representations of the FormalName `name` (list of component bytes)."""
+N_KINDS = 13
+# representations that hand the library a buffer the caller can still write to afterwards
+WRITABLE_KINDS = (3, 5, 7, 9, 10, 11, 12)
+N_MODES = 4
+
+
+def respell(c, rot):
+    """Another well-formed component of the same length (generic one-letter components rotate through the
+    tree alphabet so that the respelt name is another name of the pool; otherwise the last value byte flips)."""
+    if len(c) == 3 and c[0] == 8 and chr(c[2]) in rot:
+        return c[:2] + rot[chr(c[2])].encode()
+    return c[:-1] + bytes([c[-1] ^ 1]) if len(c) > 2 else c
+
+
+ROT = {x: y for x, y in zip('abcez', 'bceza')}
+
+
+def images(pre, comps, post, hdr):
+    """What the caller writes over a buffer that held pre ++ hdr ++ comps ++ post, per scribble mode:
+    0 zeros, 1 0xFF, 2 the same layout spelling another name (every component respelt), 3 only the last
+    component respelt.  All images have the length of the buffer."""
+    n = len(pre) + len(hdr) + sum(len(c) for c in comps) + len(post)
+    alt_all = [respell(c, ROT) for c in comps]
+    alt_last = list(comps[:-1]) + [respell(c, ROT) for c in comps[-1:]]
+    return [bytes(n), b'\xff' * n, pre + hdr + b''.join(alt_all) + post, pre + hdr + b''.join(alt_last) + post]
+
+
+def represent(rng, name, kind=None, bufs=None):
+    """One of the accepted representations of the FormalName `name` (list of component bytes).  Buffers that stay
+    writable for the caller are appended to `bufs` as (bytearray, images) for later `scrib` events."""
     from ndn.encoding import Name, Component
-    kind = rng.randrange(9) if kind is None else kind
+    kind = rng.randrange(N_KINDS) if kind is None else kind
+    bufs = [] if bufs is None else bufs
+
+    def own(c):            # a caller-owned writable copy of one component
+        b = bytearray(c)
+        bufs.append((b, images(b'', [bytes(c)], b'', b'')))
+        return b
+
+    def own_name(pre=b'', post=b''):
+        enc = bytes(Name.to_bytes(name))
+        hdr = enc[:len(enc) - sum(len(c) for c in name)]
+        b = bytearray(pre + enc + post)
+        bufs.append((b, images(pre, [bytes(c) for c in name], post, hdr)))
+        return b
+
     if kind == 0:
         return kind, Name.to_str(name)
     if kind == 1:
@@ -269,16 +322,32 @@ def represent(rng, name, kind=None):
     if kind == 2:
         return kind, [Component.to_str(c) for c in name]
     if kind == 3:
-        return kind, [bytearray(c) if i % 2 else memoryview(c) for i, c in enumerate(name)]
+        return kind, [own(c) if i % 2 else memoryview(c) for i, c in enumerate(name)]
     if kind == 4:
         return kind, bytes(Name.to_bytes(name))
     if kind == 5:
-        return kind, bytearray(Name.to_bytes(name))
+        return kind, own_name()
     if kind == 6:
         return kind, memoryview(bytes(Name.to_bytes(name)))
     if kind == 7:
-        return kind, tuple(memoryview(bytearray(c)) for c in name)
-    return kind, [Component.to_str(c) if i % 2 else c for i, c in enumerate(name)]
+        return kind, tuple(memoryview(own(c)) for c in name)
+    if kind == 8:
+        return kind, [Component.to_str(c) if i % 2 else c for i, c in enumerate(name)]
+    if kind == 9:          # writable view of the whole encoded name
+        return kind, memoryview(own_name())
+    if kind == 10:         # writable view of a region of a larger scratch buffer
+        pre, post = b'\x07\x03\x08', b'\x08\x01a\x00\x00'
+        b = own_name(pre, post)
+        return kind, memoryview(b)[len(pre):len(b) - len(post)]
+    if kind == 11:         # component list: writable views into ONE scratch buffer holding all components
+        b = bytearray(b''.join(name))
+        bufs.append((b, images(b'', [bytes(c) for c in name], b'', b'')))
+        mv, out, o = memoryview(b), [], 0
+        for c in name:
+            out.append(mv[o:o + len(c)])
+            o += len(c)
+        return kind, out
+    return kind, [own(c) for c in name]     # 12: every component a bytearray
 
 
 def ns_sexp(arg):
@@ -302,9 +371,14 @@ def ns_sexp(arg):
 # harness-level events:
 #   ('att', name, hid, vid, raw, sig, repr_kind, via_route) ('det', name, repr_kind)
 #   ('recv', name, life, now, buf_kind, token) ('settle',) ('reply', i, now, running) ('clean',)
+#   ('scrib', mode): the caller overwrites every writable buffer it handed to attach/detach so far (see `images`).
+#       Not an event of the model or of the specification: attachments are values there, so the observations
+#       demanded for the rest of the history are those of the history without the scrib events.
 def model_ops(h):
     out = []
     for e in h:
+        if e[0] == 'scrib':
+            continue
         if e[0] == 'att':
             out.append([1, e[1], [] if e[2] is None else [e[2]], [] if e[3] is None else [e[3]], e[4], e[5]])
         elif e[0] == 'det':
@@ -324,6 +398,8 @@ def spec_ops(fe, h):
     """None when the history leaves the specification's alphabet (None handler, stopped face, reply in v1)."""
     out = []
     for e in h:
+        if e[0] == 'scrib':
+            continue
         if e[0] == 'att':
             if e[2] is None:
                 return None
@@ -378,7 +454,7 @@ def run_history(ctx, fe, h, stratum, state, check_nodes=True):
     async def turn(chunk, base):
         for j, e in enumerate(chunk):
             if e[0] == 'att':
-                _, arg = represent(rng, e[1], e[6])
+                _, arg = represent(rng, e[1], e[6], impl.bufs)
                 if state.get('check_norm'):
                     m = ctx.call([3, ns_sexp(arg)])
                     if is_err(m) or [bytes(c) for c in m[1]] != e[1]:
@@ -386,7 +462,7 @@ def run_history(ctx, fe, h, stratum, state, check_nodes=True):
                                      [e[6], e[1]], m, None)
                 obs.append(impl.attach(arg, e[2], e[3], e[4], e[5], e[7]))
             elif e[0] == 'det':
-                _, arg = represent(rng, e[1], e[2])
+                _, arg = represent(rng, e[1], e[2], impl.bufs)
                 obs.append(impl.detach(arg))
             elif e[0] == 'recv':
                 loop._vt = e[3] / 1000.0
@@ -403,6 +479,10 @@ def run_history(ctx, fe, h, stratum, state, check_nodes=True):
                     reply_bytes.append((e[1], None))
             elif e[0] == 'clean':
                 obs.append(impl.cleanup())
+            elif e[0] == 'scrib':
+                for b, imgs in impl.bufs:
+                    b[:] = imgs[e[1]]
+                ctx.stat(f'scrib:mode{e[1]}')
 
     chunk = []
     for e in h:
@@ -419,8 +499,22 @@ def run_history(ctx, fe, h, stratum, state, check_nodes=True):
     errs = loop.collect_errors() if state.get('collect') else list(loop.errors)
     loop.errors.clear()
     case = {'fe': FE_NAME[fe], 'history': h}
+    full = h                                                   # with the scrib events
+    pos = [i for i, e in enumerate(full) if e[0] != 'scrib']   # observed event j is full[pos[j]]
+    h = [full[i] for i in pos]
+    reuse = '-after-caller-buffer-reuse'
+
+    def reused(j):             # did the caller overwrite a buffer it had handed over before observed event j?
+        seen = False
+        for e in full[:pos[j]]:
+            if e[0] in ('att', 'det') and e[6 if e[0] == 'att' else 2] in WRITABLE_KINDS and e[1]:
+                seen = True
+            elif e[0] == 'scrib' and seen:
+                return True
+        return False
     if errs:
-        ctx.violation(FE_NAME[fe], 'loop-exception', f'exception reached the loop handler: {str(errs[0])[:200]}', case)
+        ctx.violation(FE_NAME[fe], 'loop-exception' + (reuse if h and reused(len(h) - 1) else ''),
+                      f'exception reached the loop handler: {str(errs[0])[:200]}', case)
 
     # -- correspondence ------------------------------------------------------------------------------
     m = ctx.call([1, fe, model_ops(h)])
@@ -439,7 +533,7 @@ def run_history(ctx, fe, h, stratum, state, check_nodes=True):
         else:
             ok = mo == io
         if not ok:
-            ctx.disagree(f'{FE_NAME[fe]}:{e[0]}', f'event {j} ({e[0]}) observed differently', case, mo, io)
+            ctx.disagree(f'{FE_NAME[fe]}:{e[0]}', f'event {pos[j]} ({e[0]}) observed differently', case, mo, io)
             break
     if len(mobs) != len(obs):
         ctx.disagree('C04.run', 'observation count', case, len(mobs), len(obs))
@@ -510,15 +604,15 @@ def run_history(ctx, fe, h, stratum, state, check_nodes=True):
                         cls = 'reply-outcome'
                 else:
                     cls = VCLASS[e[0]]
-                ctx.violation(FE_NAME[fe], cls,
-                              f'event {j} {e[0]}: specification demands {s}, implementation did {a}',
-                              {'fe': FE_NAME[fe], 'history': h[:j + 1]})
+                ctx.violation(FE_NAME[fe], cls + (reuse if reused(j) else ''),
+                              f'event {pos[j]} {e[0]}: specification demands {s}, implementation did {a}',
+                              {'fe': FE_NAME[fe], 'history': full[:pos[j] + 1]})
                 break
         ctx.stat('oracle_histories')
     else:
         ctx.stat('correspondence_only_histories')
     nontriv = any(e[0] == 'att' for e in h) and any(e[0] == 'recv' for e in h)
-    ctx.case((fe, h), nontriv, {'fe': FE_NAME[fe], 'history': h[:12]}, stratum)
+    ctx.case((fe, full), nontriv, {'fe': FE_NAME[fe], 'history': full[:12]}, stratum)
 
 
 # ---- generators -------------------------------------------------------------------------------------
@@ -554,14 +648,14 @@ def gen_history(rng, fe, cs, wf=True):
             if not wf and rng.random() < 0.15:
                 hid = None
             vid = rng.choice([None, None, 100 + next_h])
-            h.append(('att', nm, hid, vid, rng.randrange(2), rng.randrange(2), rng.randrange(9),
+            h.append(('att', nm, hid, vid, rng.randrange(2), rng.randrange(2), rng.randrange(N_KINDS),
                       rng.randrange(2)))
             used.append(nm)
         elif r < 0.45:
             nm = rng.choice(used) if rng.random() < 0.8 else rand_name(rng, cs)
             if rng.random() < 0.1:
                 nm = nm[:max(0, len(nm) - 1)]
-            h.append(('det', nm, rng.randrange(9)))
+            h.append(('det', nm, rng.randrange(N_KINDS)))
         elif r < 0.80:
             base = rng.choice(used)
             k = rng.random()
@@ -592,6 +686,8 @@ def gen_history(rng, fe, cs, wf=True):
                 h.append(('reply', i, now, running))
         else:
             h.append(('clean',))
+        if rng.random() < 0.12:     # the caller reuses the buffers it passed to attach/detach so far
+            h.append(('scrib', rng.randrange(N_MODES)))
         if rng.random() < 0.3:
             t += rng.choice([0, 1, 1, 10, 99, 100, 101, 3999, 4000, 4001])
     h.append(('settle',))
@@ -635,7 +731,7 @@ def run(ctx):
                         d = t0 + (4000 if life is None else life)
                         if d + delta < t0:
                             continue
-                        h = [('att', [a], 1, None, 0, 0, rng.randrange(9), 0),
+                        h = [('att', [a], 1, None, 0, 0, rng.randrange(N_KINDS), 0),
                              ('recv', [a, comp('b')], life, t0, buf, tok), ('settle',),
                              ('reply', 0, d + delta, True), ('reply', 0, d + delta, True), ('settle',)]
                         run_history(ctx, FE_V2, h, 'reply-grid', state)
@@ -648,7 +744,7 @@ def run(ctx):
         for l1, l2 in ((100, 200), (200, 100), (0, 4000), (None, 1)):
             for k in range(ctx.n(6, 40)):
                 t0 = 2_000_000
-                ev = [('att', [a], 1, None, 0, 0, rng.randrange(9), 1), ('att', [a, a], 2, None, 0, 0, rng.randrange(9), 0),
+                ev = [('att', [a], 1, None, 0, 0, rng.randrange(N_KINDS), 1), ('att', [a, a], 2, None, 0, 0, rng.randrange(N_KINDS), 0),
                       ('recv', [a, a, a], l1, t0, 0, None), ('recv', [a, comp('b')], l2, t0 + 3, 1, b'\x07'), ('settle',)]
                 ts = sorted(t0 + 3 + rng.choice([0, 1, 96, 97, 98, 99, 100, 101, 196, 197, 198, 199, 200, 201, 3997, 3998, 4001])
                             for _ in range(4))
@@ -671,23 +767,62 @@ def run(ctx):
                 sub = [nodes[i] for i in range(9) if mask >> i & 1]
                 order = sub[:]
                 rng.shuffle(order)
-                h = [('att', p, 1 + nodes.index(p), None, 0, 0, rng.randrange(9), rng.randrange(2)) for p in order]
+                h = [('att', p, 1 + nodes.index(p), None, 0, 0, rng.randrange(N_KINDS), rng.randrange(2)) for p in order]
                 # duplicate attach on every occupied prefix, detach on every free one
-                h += [('att', p, 50 + nodes.index(p), None, 0, 0, rng.randrange(9), 0) for p in sub]
-                h += [('det', p, rng.randrange(9)) for p in nodes if p not in sub]
+                h += [('att', p, 50 + nodes.index(p), None, 0, 0, rng.randrange(N_KINDS), 0) for p in sub]
+                h += [('det', p, rng.randrange(N_KINDS)) for p in nodes if p not in sub]
                 h += [('recv', n, 4000, 1_000_000, (len(n) + mi) % 2, None) for n in names]
                 h.append(('settle',))
                 rng.shuffle(order)
                 # detach half, look again at every node name and its children, detach the rest
                 half = order[:len(order) // 2]
-                h += [('det', p, rng.randrange(9)) for p in half]
+                h += [('det', p, rng.randrange(N_KINDS)) for p in half]
                 probe = [n for n in names if len(n) <= 3 or n[:3] in nodes or n[:4] in nodes]
                 h += [('recv', n, None, 1_000_001, 0, None) for n in probe]
                 h.append(('settle',))
-                h += [('det', p, rng.randrange(9)) for p in order[len(order) // 2:]]
+                h += [('det', p, rng.randrange(N_KINDS)) for p in order[len(order) // 2:]]
                 h += [('recv', n, None, 1_000_002, 1, None) for n in nodes]
                 h.append(('settle',))
                 run_history(ctx, fe, h, f'tree-exhaustive-{FE_NAME[fe]}', state)
+        # ---- 2b. caller-owned buffers: every prefix attached through a representation whose buffer stays
+        # writable for the caller (bytearray / writable memoryview, whole name, region of a scratch buffer,
+        # per-component buffers), then the caller overwrites those buffers (4 contents) -- in the same turn or
+        # after a loop turn -- and the table must behave as if nothing happened: every probe name delivered
+        # by longest prefix, duplicates refused, free prefixes KeyError, detach of each prefix succeeds once.
+        probe_all = [n for n in names if len(n) <= 3 or n[:3] in nodes or n[:4] in nodes]
+        for fe in (FE_V2, FE_V1, FE_DISP):
+            combos = [(k, m, tm) for k in WRITABLE_KINDS for m in range(N_MODES) for tm in (0, 1)]
+            for ci, (kind, mode, timing) in enumerate(combos):
+                if not ctx.thorough and fe != FE_V2 and (ci + fe) % 2:
+                    continue            # quick: the other front-ends see every (kind, mode) with one timing
+                ms = [511] + rng.sample(range(1, 511), ctx.n(1 if fe == FE_V2 else 0, 12))
+                for mask in ms:
+                    sub = [nodes[i] for i in range(9) if mask >> i & 1]
+                    order = sub[:]
+                    rng.shuffle(order)
+                    h = [('att', p, 1 + nodes.index(p), None, 0, 0, kind, rng.randrange(2)) for p in order]
+                    if timing:
+                        h.append(('settle',))
+                    h.append(('scrib', mode))
+                    h += [('recv', n, 4000, 1_000_000, len(n) % 2, None) for n in probe_all]
+                    h.append(('settle',))
+                    h += [('att', p, 50 + nodes.index(p), None, 0, 0, rng.randrange(N_KINDS), 0) for p in sub]
+                    h += [('det', p, kind) for p in nodes if p not in sub]
+                    rng.shuffle(order)
+                    h += [('det', p, rng.choice((kind, rng.randrange(N_KINDS)))) for p in order[:len(order) // 2]]
+                    h.append(('scrib', (mode + 1 + rng.randrange(3)) % N_MODES))
+                    h += [('recv', n, None, 1_000_001, 0, None) for n in probe_all]
+                    h.append(('settle',))
+                    # re-attach what was detached through a writable buffer again, reuse it, detach everything
+                    h += [('att', p, 80 + nodes.index(p), None, 0, 0, kind, 0) for p in order[:len(order) // 2]]
+                    h.append(('scrib', mode))
+                    h += [('recv', n, None, 1_000_002, 1, None) for n in nodes]
+                    h.append(('settle',))
+                    h += [('det', p, rng.randrange(N_KINDS)) for p in order]
+                    h += [('det', p, kind) for p in order[:2]]
+                    h += [('recv', n, None, 1_000_003, 1, None) for n in nodes]
+                    h.append(('settle',))
+                    run_history(ctx, fe, h, f'buffer-reuse-{FE_NAME[fe]}', state)
         state['check_norm'] = True
 
         # ---- 3. random histories ------------------------------------------------------------------
